@@ -135,12 +135,12 @@ func agedSidecar(t *testing.T, r *ev.Run) {
 					// stream 1 lives through the expiry
 					play("1", []step{
 						{what: "session", part: "partP"},
-						{what: "encrypt"},                  // rec 0: first generation
+						{what: "encrypt"}, // rec 0: first generation
 						{what: "decrypt", rec: 0},
-						{what: "sleep", d: gap},            // the keys expire while cached
+						{what: "sleep", d: gap}, // the keys expire while cached
 						{what: "decrypt", rec: 0},
-						{what: "encrypt"},                  // rec 1: rotation
-						{what: "decrypt", rec: 0},          // the old key is needed again through the same caches
+						{what: "encrypt"},         // rec 1: rotation
+						{what: "decrypt", rec: 0}, // the old key is needed again through the same caches
 						{what: "decrypt", rec: 1},
 						{what: "sleep", d: 11 * time.Minute},
 						{what: "encrypt"}, // rec 2
